@@ -361,6 +361,7 @@ type Clause struct {
 }
 
 type LoopSpec struct {
+	Assumes    []*Clause // assumed at the loop head without proof (listed as assumptions)
 	Invariants []*Clause
 	Decreases  *Clause
 }
@@ -389,11 +390,21 @@ type Contract struct {
 	Pure     bool
 	Loops    map[int]*LoopSpec
 	AtCalls  []*AtCall
+	Recvs    []*RecvSpec
 	Opts     map[string]string
 	File     string
 	Line     int
 	Results  []string // optional result names given in header "-> (a, b)"
 	Params   []string // optional parameter names for extern contracts
+}
+
+// RecvSpec: assumed channel invariant of a receive on the channel held by local variable Chan.
+// `assume E` constrains the received value (bound to v) when a value was received, `closed E` holds
+// when the receive reports that the channel is closed and drained.
+type RecvSpec struct {
+	Chan   string
+	Assume []*Clause
+	Closed []*Clause
 }
 
 type SpecFunc struct {
@@ -455,7 +466,7 @@ func parseContractFile(path string) (*ContractFile, error) {
 			first = body[:k]
 		}
 		switch first {
-		case "func", "extern", "requires", "ensures", "let", "modifies", "pure", "loop", "spec", "ghost", "lemma", "axiom", "at", "opt", "results", "params":
+		case "func", "extern", "requires", "ensures", "let", "modifies", "pure", "loop", "spec", "ghost", "lemma", "axiom", "at", "opt", "results", "params", "recv":
 			raws = append(raws, rawClause{body, i + 1})
 		default:
 			if len(raws) == 0 {
@@ -558,6 +569,8 @@ func parseContractFile(path string) (*ContractFile, error) {
 			switch k2 {
 			case "invariant":
 				ls.Invariants = append(ls.Invariants, c)
+			case "assume":
+				ls.Assumes = append(ls.Assumes, c)
 			case "decreases":
 				ls.Decreases = c
 			default:
@@ -594,8 +607,40 @@ func parseContractFile(path string) (*ContractFile, error) {
 			switch k2 {
 			case "assert":
 				ac.Asserts = append(ac.Asserts, c)
+			case "assume":
+				ac.Assumes = append(ac.Assumes, c)
 			default:
 				return nil, fmt.Errorf("%s:%d: unknown at-call clause %q", path, rc.line, k2)
+			}
+		case "recv":
+			// recv CHAN: assume E | recv CHAN: closed E
+			i := strings.Index(rest, ":")
+			if i < 0 || cur == nil {
+				return nil, fmt.Errorf("%s:%d: bad recv clause", path, rc.line)
+			}
+			ch := strings.TrimSpace(rest[:i])
+			k2, r2 := splitKw(strings.TrimSpace(rest[i+1:]))
+			c, err := mkClause(k2, r2, rc.line)
+			if err != nil {
+				return nil, err
+			}
+			var rs *RecvSpec
+			for _, x := range cur.Recvs {
+				if x.Chan == ch {
+					rs = x
+				}
+			}
+			if rs == nil {
+				rs = &RecvSpec{Chan: ch}
+				cur.Recvs = append(cur.Recvs, rs)
+			}
+			switch k2 {
+			case "assume":
+				rs.Assume = append(rs.Assume, c)
+			case "closed":
+				rs.Closed = append(rs.Closed, c)
+			default:
+				return nil, fmt.Errorf("%s:%d: unknown recv clause %q", path, rc.line, k2)
 			}
 		case "spec":
 			// spec func name(a int, b ref) int [= expr]
